@@ -11,6 +11,7 @@ import (
 	"os"
 	"path/filepath"
 	"runtime"
+	"strconv"
 	"strings"
 	"testing"
 	"time"
@@ -39,12 +40,12 @@ func c02Shapes() []cargen.Shape {
 			case 0:
 				b.Entries = [][]cargen.TxShape{{{Accounts: []int{0}}, {Accounts: []int{1}, Vote: true}}}
 			case 1:
-				b.Entries = [][]cargen.TxShape{{}, {{Accounts: []int{2}, Failed: true}}, {{Accounts: []int{0, 1}, Meta: cargen.PayloadShape{Pad: 700, FrameSize: 256, FanOut: 2}}, {Accounts: []int{1}}}}
+				b.Entries = [][]cargen.TxShape{{}, {{Accounts: []int{2}, Failed: true}}, {{Accounts: []int{0, 1}, Meta: cargen.PayloadShape{Pad: 700, FrameSize: 256, FanOut: 2}}, {Accounts: []int{1}, BigAmounts: true}}}
 			case 2:
 				b.Entries = [][]cargen.TxShape{{{Accounts: []int{1}, TxPad: 200, Meta: cargen.PayloadShape{Pad: 1500, FrameSize: 300, FanOut: 3, Checksum: "fnv"}},
 					// transaction bytes AND metadata in linked frames (the first data frame still holds the signature)
 					{Accounts: []int{0, 2}, TxPad: 600, Data: cargen.PayloadShape{FrameSize: 128, FanOut: 2}, Meta: cargen.PayloadShape{Pad: 500, FrameSize: 200}}}}
-				b.Rewards = &cargen.PayloadShape{Pad: 400, FrameSize: 128}
+				b.Rewards = &cargen.PayloadShape{Pad: 400, FrameSize: 128, BigAmounts: true}
 			case 3:
 				b.Entries = [][]cargen.TxShape{{{Accounts: []int{2}, NoMeta: true}}, {{Accounts: []int{0}, Loaded: []int{2}}}}
 				b.Rewards = &cargen.PayloadShape{}
@@ -119,8 +120,11 @@ func (w *c02World) checkTxJSON(tx *cargen.TxTruth, bt int64, enc string, got map
 		if m == nil {
 			return &c02Finding{"meta-missing", fmt.Sprintf("%s sig %s: archived metadata not returned (meta=%v)", where, tx.Sig, got["meta"])}
 		}
-		if fee, _ := m["fee"].(float64); uint64(fee) != tx.Fee {
+		if c02Exact(m["fee"]) != strconv.FormatUint(tx.Fee, 10) {
 			return &c02Finding{"meta-fee", fmt.Sprintf("%s sig %s: fee %v, archived %d", where, tx.Sig, m["fee"], tx.Fee)}
+		}
+		if c02Exact(m["preBalances"]) != c02U64s(tx.PreBalances) || c02Exact(m["postBalances"]) != c02U64s(tx.PostBalances) {
+			return &c02Finding{"meta-balances", fmt.Sprintf("%s sig %s: preBalances %v postBalances %v, archived %v / %v", where, tx.Sig, m["preBalances"], m["postBalances"], tx.PreBalances, tx.PostBalances)}
 		}
 		logs, _ := m["logMessages"].([]interface{})
 		if len(logs) != len(tx.Logs) {
@@ -149,10 +153,58 @@ func (w *c02World) rpc(method string, params string) (map[string]interface{}, st
 		return nil, "", &c02Finding{"panic", fmt.Sprintf("%s %s panicked: %v", method, params, pan)}
 	}
 	var m map[string]interface{}
-	if err := json.Unmarshal(resp, &m); err != nil {
+	dec := json.NewDecoder(bytes.NewReader(resp))
+	dec.UseNumber()
+	if err := dec.Decode(&m); err != nil {
 		return nil, "", &c02Finding{"bad-json", fmt.Sprintf("%s %s: status %d body %q", method, params, status, resp)}
 	}
+	c02Numbers("", m)
 	return m, string(resp), nil
+}
+
+// c02Numbers turns the decoded numbers into float64, except the 64-bit amounts (kept as json.Number: they are
+// compared digit by digit, a float64 cannot hold them).
+func c02Numbers(key string, v interface{}) interface{} {
+	switch x := v.(type) {
+	case map[string]interface{}:
+		for k, e := range x {
+			x[k] = c02Numbers(k, e)
+		}
+	case []interface{}:
+		for i, e := range x {
+			x[i] = c02Numbers(key, e)
+		}
+	case json.Number:
+		switch key {
+		case "fee", "preBalances", "postBalances", "computeUnitsConsumed", "lamports", "postBalance":
+			return x
+		}
+		f, _ := x.Float64()
+		return f
+	}
+	return v
+}
+
+func c02Exact(v interface{}) string {
+	switch x := v.(type) {
+	case json.Number:
+		return x.String()
+	case []interface{}:
+		var out []string
+		for _, e := range x {
+			out = append(out, c02Exact(e))
+		}
+		return strings.Join(out, ",")
+	}
+	return fmt.Sprintf("<%v>", v)
+}
+
+func c02U64s(v []uint64) string {
+	var out []string
+	for _, e := range v {
+		out = append(out, strconv.FormatUint(e, 10))
+	}
+	return strings.Join(out, ",")
 }
 
 // checkAll verifies every archived slot and signature of the loaded epochs. order = iteration direction.
@@ -219,6 +271,16 @@ func (w *c02World) checkAll(loaded []*vEpoch, reverse bool, encs []string, repor
 				if b.HasHeight && b.Slot != 0 {
 					if bh, _ := res["blockHeight"].(float64); uint64(bh) != b.Height {
 						report(c02Finding{"block-height", fmt.Sprintf("getBlock(%d): blockHeight %v, archived %d", b.Slot, res["blockHeight"], b.Height)})
+					}
+				}
+				if b.RewardsRaw != nil {
+					rws, _ := res["rewards"].([]interface{})
+					var first map[string]interface{}
+					if len(rws) > 0 {
+						first, _ = rws[0].(map[string]interface{})
+					}
+					if first == nil || c02Exact(first["lamports"]) != strconv.FormatInt(b.RewardLamports, 10) || c02Exact(first["postBalance"]) != strconv.FormatUint(b.RewardPostBalance, 10) {
+						report(c02Finding{"rewards-amounts", fmt.Sprintf("getBlock(%d): first reward %v, archived lamports %d postBalance %d", b.Slot, first, b.RewardLamports, b.RewardPostBalance)})
 					}
 				}
 				if bh, _ := res["blockhash"].(string); bh != base58.Encode(b.LastEntryHash) {
